@@ -25,7 +25,37 @@ def ascii85decode(data: bytes) -> bytes:
     data = start_re.sub(b"", data)
     data = end_re.sub(b"", data)
     # PDF white space also includes FF and NUL (PDF 32000-1 7.2.2, Table 1)
-    return a85decode(data, ignorechars=b" \t\n\r\v\f\x00")
+    try:
+        return a85decode(data, ignorechars=b" \t\n\r\v\f\x00")
+    except ValueError:
+        return _ascii85decode_corrupted(data)
+
+
+def _ascii85decode_corrupted(data: bytes) -> bytes:
+    """Decode what can be decoded of corrupted ASCII85 data: characters that
+    are not ASCII85 digits and groups that overflow 32 bits are skipped."""
+    out = bytearray()
+    group: list = []
+    for c in data:
+        if c == 0x7A and not group:  # z
+            out += b"\0\0\0\0"
+        elif 0x21 <= c <= 0x75:
+            group.append(c - 0x21)
+            if len(group) == 5:
+                value = 0
+                for digit in group:
+                    value = value * 85 + digit
+                if value < 1 << 32:
+                    out += value.to_bytes(4, "big")
+                group = []
+    if len(group) > 1:
+        n = len(group) - 1
+        value = 0
+        for digit in group + [84] * (5 - len(group)):
+            value = value * 85 + digit
+        if value < 1 << 32:
+            out += value.to_bytes(4, "big")[:n]
+    return bytes(out)
 
 
 bws_re = re.compile(rb"[\s\x00]")
